@@ -340,9 +340,20 @@ def shard(ctx, arg):
             parts = [classes[:cut], classes[cut:]]
         else:
             parts = [classes]
-        datas = [W.write_dex(R.to_model(p)) for p in parts]
+        models = [R.to_model(p) for p in parts]
+        big = None
+        if rng.random() < (1 / 30 if ctx.quick else 1 / 60):
+            # big-index pool: a padding class whose N static fields and N native methods sort BEFORE the program's classes pushes the program's field,
+            # method and string indices across 0x7FFF/0x8000 (sign bit of a 16-bit index) or close to 0xFFFF
+            big = rng.choice([0x7FF8, 0x7FFD, 0x7FFF, 0x8000, 0x8005, 0xFE00])
+            pad = models[0].add_class("La/Pad;", W.ACC_PUBLIC | W.ACC_ABSTRACT)
+            for i in range(big):
+                pad.add_field("A%05d" % i, "I", W.ACC_STATIC | W.ACC_PUBLIC)
+                pad.add_method("A%05d" % i, "V", (), W.ACC_PUBLIC | W.ACC_NATIVE, None)
+            ctx.count("big_index_cases")
+        datas = [W.write_dex(m) for m in models]
         class_to_dex = {c.name: i for i, p in enumerate(parts) for c in p}
-        wit = {"classes": [(c.name, c.sfields, c.ifields, [(m.key, m.sites) for m in c.methods]) for c in classes][:4], "dex_files": len(datas), "class_to_dex": class_to_dex}
+        wit = {"classes": [(c.name, c.sfields, c.ifields, [(m.key, m.sites) for m in c.methods]) for c in classes][:4], "dex_files": len(datas), "class_to_dex": class_to_dex, "padding_fields_and_methods_before_the_program": big}
         ctx.ev()
         ctx.count("analyses")
         try:
@@ -362,11 +373,11 @@ def shard(ctx, arg):
 def run(ctx, which):
     ctx.rule = ("programs from vf/gen/refprog.py: invoke-virtual/super/direct/static/interface and /range on internal, external and array-class methods; iget/iput/sget/sput (7 variants) on "
                 "fields of the same class, of other classes and (35% of the cases) of classes in a second DEX of the same Analysis, and on undefined fields; const-string(/jumbo) with "
-                "shared values; new-instance / const-class on internal, external, array and primitive-array types; repeated at several offsets. Real Analysis.add + create_xref; "
+                "shared values; new-instance / const-class on internal, external, array and primitive-array types; repeated at several offsets; a big-index pool (32760..65024 padding fields/methods/strings in front, so that the program's indices cross 0x8000 or approach 0xFFFF). Real Analysis.add + create_xref; "
                 "every xref table compared with the model. distinct non-trivial = distinct (#sites, #targets, external?, array?) per method/field/string/class")
     ctx.assumptions = ["const-class / new-instance on the method's own class and const-class on [LFoo; (recorded by androguard on LFoo;) are don't-care",
                        "vf/model/dexw.py + vf/gen/refprog.py site offsets"]
-    n = 480 if ctx.quick else 40000
+    n = 480 if ctx.quick else 200000
     ctx.run_shards(MOD, "shard", [[which, i, n // 16 + 1] for i in range(16)], timeout=3000)
     ctx.require_counter("analyses", 100)
     ctx.min_distinct = 8
